@@ -400,6 +400,71 @@ def edge_is_rejecting(fn, src, dst, extra_avoid_edges=()):
     return not any(b in reach for b in ok_return_blocks(fn))
 
 
+def const_reach(fn, start=0, avoid=(), avoid_edges=(), max_states=20000):
+    """Blocks reachable from `start` when boolean constants are propagated: a flag assigned `true` / `false` in the arms of a
+    match (what `matches!(..)` lowers to), copied, negated and then branched on only takes the edge its value selects.
+    Plain reachability otherwise (unknown values take every edge).  `avoid` blocks are not entered, `avoid_edges` not taken."""
+    fn.succ(0)
+    avoid = set(avoid)
+    avoid_edges = set(avoid_edges)
+    seen = set()
+    out = set()
+    work = [(start, ())]
+    while work:
+        bb, vals_t = work.pop()
+        if bb in avoid or (bb, vals_t) in seen:
+            continue
+        seen.add((bb, vals_t))
+        if len(seen) > max_states:
+            return set(fn.reachable(start, avoid=avoid, avoid_edges=avoid_edges))
+        out.add(bb)
+        vals = dict(vals_t)
+        blk = fn.blocks[bb]
+        for st in blk["st"]:
+            if st["s"] != "assign":
+                continue
+            if st["pl"]["p"]:
+                continue
+            l = st["pl"]["l"]
+            rv = st["rv"]
+            new = None
+            if rv["rv"] == "use":
+                op = rv["op"]
+                if op.get("k") == "const" and op.get("ty") == "bool" and op.get("val") and "int" in op["val"]:
+                    new = bool(op["val"]["int"])
+                elif op.get("k") in ("copy", "move") and not op["pl"]["p"] and op["pl"]["l"] in vals:
+                    new = vals[op["pl"]["l"]]
+            elif rv["rv"] == "unop" and rv["op"] == "Not":
+                op = rv["a"]
+                if op.get("k") in ("copy", "move") and not op["pl"]["p"] and op["pl"]["l"] in vals:
+                    new = not vals[op["pl"]["l"]]
+            if new is None:
+                vals.pop(l, None)
+            else:
+                vals[l] = new
+        t = blk["term"]
+        if t["t"] == "call" and not t["dest"]["p"]:
+            vals.pop(t["dest"]["l"], None)
+        succs = list(fn.succ(bb))
+        if t["t"] == "switch" and len(succs) > 1:
+            d = t["discr"]
+            dl = d["pl"]["l"] if d.get("k") in ("copy", "move") and not d["pl"]["p"] else None
+            if dl is not None and dl in vals and fn.local_ty(dl) == "bool":
+                false_t = None
+                for val, tgt in t["targets"]:
+                    if val == 0:
+                        false_t = tgt
+                if false_t is not None:
+                    only = t["otherwise"] if vals[dl] else false_t
+                    succs = [x for x in succs if x == only]
+        vt = tuple(sorted(vals.items()))
+        for sx in succs:
+            if (bb, sx) in avoid_edges:
+                continue
+            work.append((sx, vt))
+    return out
+
+
 def bool_switch_of_call(fn, call_bb, term):
     """The bool switch testing the result of the call at call_bb (possibly through Not / copies):
     (switch_bb, true_target, false_target) with polarity already folded, or None."""
@@ -483,8 +548,108 @@ def dead_ends(fn, start, avoid=()):
 ITER_ADAPT = [r"iter::IntoIterator::into_iter$", r"slice::<impl \[T\]>::iter$", r"vec::Vec::<T, A>::iter$"]
 
 
+SEARCH_ADAPTORS = r"iter::Iterator::(find|position|any|rposition|find_map)$|iter::DoubleEndedIterator::rfind$"
+
+
+def _conflict_test(facts, ins, vec):
+    """The test `some existing element of the handler list overlaps the new endpoint`, whatever the idiom.  Returns a dict
+    {idiom, site, elem_ok, new_ok, iter_ok, hit:(switch_bb,target) taken when an overlapping element was found, clear:(switch_bb,target) taken when
+     every element was tested and none overlapped, again: block of the loop head (loop idiom) or None, detail} or (None, reason).
+
+    loop   : for h in list { if h.versions.overlaps_with(&new.versions) { refuse } }            hit = true edge of the test, clear = None edge of next()
+    search : list.iter().find / position / rfind (|h| h.versions.overlaps_with(&new.versions))   hit = Some edge of the result, clear = its None edge
+             list.iter().any(|h| h.versions.overlaps_with(&new.versions))                        hit = true edge, clear = false edge
+    (std's find / position / any apply the predicate to every element in turn until it first holds)"""
+    sites = [(ins, bb, t) for bb, t in ins.live_calls(r"^api_description::ApiEndpointVersions::overlaps_with$")]
+    for h in facts.descendants(ins):
+        sites += [(h, bb, t) for bb, t in h.live_calls(r"^api_description::ApiEndpointVersions::overlaps_with$")]
+    if len(sites) != 1:
+        return None, "overlaps_with call sites in insert (and its closures): %d (want the one test applied to every existing handler)" % len(sites)
+    f, obb, ot = sites[0]
+    if f is ins:
+        pa = access_path(ins, ot["args"][0], VALUE_PRESERVING)
+        pb = access_path(ins, ot["args"][1], VALUE_PRESERVING)
+        elem, new = (pa, pb) if pa.is_call(r"iter::Iterator::next$") else (pb, pa)
+        res = {"idiom": "loop", "site": (ins, obb), "hit": None, "clear": None, "again": None}
+        res["new_ok"] = new.kind() == "param" and new.root[1] == 2 and new.path == ["versions"]
+        res["elem_ok"] = elem.is_call(r"iter::Iterator::next$") and elem.npath() == ["+", "0", "versions"]
+        res["iter_ok"] = False
+        ne = None
+        if res["elem_ok"]:
+            nbb, nt = elem.call()[1], elem.call()[2]
+            pit = access_path(ins, nt["args"][0], VALUE_PRESERVING + ITER_ADAPT)
+            res["iter_ok"] = pit.root[0] == vec.root[0] and pit.root_local() == vec.root_local() and pit.path == vec.path
+            ne = option_edges(ins, nt["dest"]["l"])
+            res["again"] = nbb
+            if ne is not None:
+                res["clear"] = (ne[0], ne[2])
+                res["elem_ok"] = res["elem_ok"] and ins.edge_dominates(ne[0], ne[1], obb)
+        sw = bool_switch_of_call(ins, obb, ot)
+        if sw is not None:
+            res["hit"] = (sw[0], sw[1])
+            res["miss"] = (sw[0], sw[2])
+        res["detail"] = "overlaps_with(%r, %r) inside a loop over the list" % (pa, pb)
+        return res, None
+    # the test lives in a closure: it must be the predicate of a short-circuit search over the list
+    if f.raw["kind"] != "Closure":
+        return None, "overlaps_with is called in %s" % f.id
+    pa = access_path(f, ot["args"][0], VALUE_PRESERVING)
+    pb = access_path(f, ot["args"][1], VALUE_PRESERVING)
+    elem, newop = (pa, ot["args"][1]) if (pa.kind() == "param" and pa.root[1] == 2) else (pb, ot["args"][0])
+    res = {"idiom": "search", "site": (f, obb), "hit": None, "clear": None, "again": None}
+    res["elem_ok"] = elem.kind() == "param" and elem.root[1] == 2 and elem.path == ["versions"] and not [c for c in elem.call_names() if not c.endswith("Deref::deref")]
+    g, new = resolve_path(facts, f, newop, VALUE_PRESERVING)
+    res["new_ok"] = g is ins and new.kind() == "param" and new.root[1] == 2 and new.path == ["versions"]
+    ret = access_path(f, {"l": 0, "p": []}, [])
+    returns_test = ret.call() is not None and ret.call()[2] is ot and not ret.path
+    users = []
+    for bb, t in ins.live_calls():
+        for h, _n in _closure_args(ins, t):
+            if h is f:
+                users.append((bb, t))
+    res["iter_ok"] = False
+    res["detail"] = "overlaps_with(%r, %r) in a closure" % (pa, pb)
+    if len(users) != 1 or not returns_test:
+        res["detail"] += " that %s and is used by %d call(s)" % ("returns the test" if returns_test else "does NOT return the test itself", len(users))
+        res["elem_ok"] = False
+        return res, None
+    ubb, ut = users[0]
+    callee = ut.get("callee") or ""
+    if not re.search(SEARCH_ADAPTORS, callee) or callee.endswith("find_map"):
+        res["detail"] += " handed to %s, which is not a search over every element" % callee.split("::")[-1]
+        res["elem_ok"] = False
+        return res, None
+    pit = access_path(ins, ut["args"][0], VALUE_PRESERVING + ITER_ADAPT)
+    res["iter_ok"] = pit.root[0] == vec.root[0] and pit.root_local() == vec.root_local() and pit.path == vec.path and \
+        not [c for c in pit.call_names() if not re.search(r"Deref::deref$|DerefMut::deref_mut$|slice::<impl \[T\]>::iter$|iter::IntoIterator::into_iter$|vec::Vec::<T, A>::iter$|Clone::clone$|AsRef::as_ref$|Borrow::borrow$", c)]
+    res["detail"] += " handed to %s over %r" % (callee.split("::")[-1], pit)
+    if callee.endswith("::any"):
+        sw = bool_switch_of_call(ins, ubb, ut)
+        if sw is not None:
+            res["hit"], res["clear"] = (sw[0], sw[1]), (sw[0], sw[2])
+    else:
+        for sbb, info, tg in enum_switches(ins, r"^std::option::Option$"):
+            q = access_path(ins, info["place"], VALUE_PRESERVING)
+            if q.call() and q.call()[2] is ut and not q.path:
+                res["hit"], res["clear"] = (sbb, ins.switch_target(sbb, 1)), (sbb, ins.switch_target(sbb, 0))
+        if res["hit"] is None:
+            for cbb, ct in ins.live_calls(r"Option::<T>::(is_some|is_none)$"):
+                q = access_path(ins, ct["args"][0], VALUE_PRESERVING)
+                if q.call() and q.call()[2] is ut and not q.path:
+                    sw = bool_switch_of_call(ins, cbb, ct)
+                    if sw is not None:
+                        some_t, none_t = (sw[1], sw[2]) if ct["callee"].endswith("is_some") else (sw[2], sw[1])
+                        res["hit"], res["clear"] = (sw[0], some_t), (sw[0], none_t)
+    return res, None
+
+
+def _closure_args(fn, t):
+    from .lib import closure_args_of_call
+    return closure_args_of_call(fn, t)
+
+
 def conflict_loop(facts, ins, which=None):
-    """Structure of the per-method version-conflict loop of HttpRouter::insert, found by role.
+    """Structure of the per-method version-conflict test of HttpRouter::insert, found by role.
     Yields (key, ok, detail, site) checks; `which` selects a subset by key."""
     out = []
 
@@ -516,42 +681,33 @@ def conflict_loop(facts, ins, which=None):
     emit("vector-is-node.methods[METHOD]", okv, "push receiver is %r obtained from entry(%r)" % (vec, pm), (ins, pbb))
     pe = access_path(ins, pt["args"][1], [])
     emit("appended-value-is-the-new-endpoint", pe.kind() == "param" and pe.root[1] == 2 and not pe.path, "pushed value is %r" % pe, (ins, pbb))
-    ovs = ins.live_calls(r"^api_description::ApiEndpointVersions::overlaps_with$")
-    if len(ovs) != 1:
-        emit("every-element-tested", False, "overlaps_with call sites in insert: %d (want the one inside the loop over the existing handlers)" % len(ovs), ins)
+    ct, why = _conflict_test(facts, ins, vec)
+    if ct is None:
+        emit("every-element-tested", False, why, ins)
         return out
-    obb, ot = ovs[0]
-    pa = access_path(ins, ot["args"][0], VALUE_PRESERVING)
-    pb = access_path(ins, ot["args"][1], VALUE_PRESERVING)
-    elem, new = (pa, pb) if pa.is_call(r"iter::Iterator::next$") else (pb, pa)
-    okn = new.kind() == "param" and new.root[1] == 2 and new.path == ["versions"]
-    oke = elem.is_call(r"iter::Iterator::next$") and elem.path == ["as Some", "0", "versions"]
-    it_ok = False
-    ne = None
-    nbb = None
-    if oke:
-        nbb, nt = elem.call()[1], elem.call()[2]
-        pit = access_path(ins, nt["args"][0], VALUE_PRESERVING + ITER_ADAPT)
-        it_ok = pit.root[0] == vec.root[0] and pit.root_local() == vec.root_local() and pit.path == vec.path
-        ne = option_edges(ins, nt["dest"]["l"])
-    emit("every-element-tested", okn and oke and it_ok and ne is not None and ins.edge_dominates(ne[0], ne[1], obb),
-         "overlaps_with(%r, %r): one side is each element yielded by iterating the vector that is pushed to (%s), the other the new endpoint's versions (%s)"
-         % (pa, pb, it_ok, okn), (ins, obb))
-    sw = bool_switch_of_call(ins, obb, ot)
-    if sw is None or ne is None:
-        emit("overlap-true-diverges", False, "no branch on the result of overlaps_with", (ins, obb))
+    emit("every-element-tested", ct["new_ok"] and ct["elem_ok"] and ct["iter_ok"],
+         "%s: one side is each element of the vector that is pushed to (element: %s, that vector: %s), the other the new endpoint's versions (%s)"
+         % (ct["detail"], ct["elem_ok"], ct["iter_ok"], ct["new_ok"]), ct["site"])
+    if ct["hit"] is None or ct["clear"] is None:
+        emit("overlap-true-diverges", False, "no branch on the outcome of the overlap test (%s idiom)" % ct["idiom"], ct["site"])
         return out
-    sbb, tb, fb = sw
-    true_div = ins.is_diverging(tb) and nbb not in ins.reachable(tb)
-    emit("overlap-true-diverges", true_div, "the true edge of overlaps_with(..) %s (registration refused by panic)" % ("never returns" if true_div else "can continue to the push"), (ins, sbb))
-    false_cont = nbb in ins.reachable(fb, avoid=[pbb]) and not dead_ends(ins, fb, avoid=[nbb])
-    emit("overlap-false-continues", false_cont, "the false edge goes on to the next element without any refusal in between: %s" % false_cont, (ins, sbb))
-    emit("append-after-loop-exit", ins.edge_dominates(ne[0], ne[2], pbb), "push is dominated by the None edge of the element iterator (all elements were tested): %s"
-         % ins.edge_dominates(ne[0], ne[2], pbb), (ins, pbb))
-    de = dead_ends(ins, ne[2])
+    hsw, htgt = ct["hit"]
+    csw, ctgt = ct["clear"]
+    again = ct["again"]
+    true_div = ins.is_diverging(htgt) and (again is None or again not in ins.reachable(htgt)) and pbb not in ins.reachable(htgt)
+    emit("overlap-true-diverges", true_div, "the edge taken when an existing element overlaps %s (registration refused by panic)" % ("never returns" if true_div else "can continue to the push"), (ins, hsw))
+    if ct["idiom"] == "loop":
+        msw, mtgt = ct["miss"]
+        false_cont = again in ins.reachable(mtgt, avoid=[pbb]) and not dead_ends(ins, mtgt, avoid=[again])
+        emit("overlap-false-continues", false_cont, "the false edge goes on to the next element without any refusal in between: %s" % false_cont, (ins, msw))
+    else:
+        emit("overlap-false-continues", True, "short-circuit search (std find/position/any): the predicate is applied to each element in turn until it first holds", (ins, hsw))
+    emit("append-after-loop-exit", ins.edge_dominates(csw, ctgt, pbb), "push is dominated by the edge taken when all elements were tested and none overlapped: %s"
+         % ins.edge_dominates(csw, ctgt, pbb), (ins, pbb))
+    de = dead_ends(ins, ctgt)
     rets = ins.returns()
-    emit("no-refusal-after-loop", not de and all(ins.dominates(pbb, r) or r not in ins.reachable(ne[2]) for r in rets),
-         "from the loop exit every path reaches the push and returns (refusal sites after the loop: %d)" % len(de), (ins, ne[2]))
+    emit("no-refusal-after-loop", not de and all(ins.dominates(pbb, r) or r not in ins.reachable(ctgt) for r in rets),
+         "from there every path reaches the push and returns (refusal sites after the test: %d)" % len(de), (ins, ctgt))
     # nothing else touches the vector before the push
     foreign = []
     for bb, t in ins.live_calls():
@@ -563,7 +719,8 @@ def conflict_loop(facts, ins, which=None):
             q = access_path(ins, a, VALUE_PRESERVING)
             if q.root[0] == vec.root[0] and q.root_local() == vec.root_local() and q.path == vec.path and q.root[0] == "call":
                 c = t.get("callee") or ""
-                if not re.search(r"Deref::deref$|DerefMut::deref_mut$|slice::<impl \[T\]>::iter$|iter::IntoIterator::into_iter$|vec::Vec::<T, A>::(iter|len|is_empty)$", c):
+                if not re.search(r"Deref::deref$|DerefMut::deref_mut$|slice::<impl \[T\]>::(iter|get|first|last|len|is_empty)$|iter::IntoIterator::into_iter$|"
+                                 r"vec::Vec::<T, A>::(iter|len|is_empty|as_slice)$|ops::Index::index$", c):
                     foreign.append(c)
     emit("vector-untouched-before-append", not foreign, "other operations on the handler list in insert: %s" % (foreign or "only iteration"), (ins, pbb))
     return out
